@@ -23,3 +23,5 @@ mod c06_pred;
 mod c11_field;
 #[cfg(kani)]
 mod c13_convert;
+#[cfg(all(kani, feature = "serde"))]
+mod c16_serde;
